@@ -2,6 +2,7 @@ package main
 
 import (
 	"fmt"
+	"go/token"
 	"go/types"
 	"sort"
 	"strings"
@@ -13,15 +14,16 @@ var tl1WriteCfg = &wireCfg{prims: tl1Prims, callRoles: map[string]string{
 	"WriteTL1": "TL1", "WriteTL1Boxed": "TL1Boxed", "WriteTL1General": "TL1", "WriteTL1BoxedGeneral": "TL1Boxed", "WriteResultTL1": "ResultTL1"}}
 
 type genCtx struct {
-	c      *Check
-	co     *Corpus
-	funcs  map[*types.Func]*FuncInfo
-	byFam  map[string]map[string]*FuncInfo // family → role → func
-	irs    map[*types.Func]*FuncIR
+	c       *Check
+	co      *Corpus
+	funcs   map[*types.Func]*FuncInfo
+	byFam   map[string]map[string]*FuncInfo // family → role → func
+	irs     map[*types.Func]*FuncIR
+	trivial map[string]*WPrim
 }
 
 func newGenCtx(c *Check, co *Corpus) *genCtx {
-	g := &genCtx{c: c, co: co, funcs: co.allFuncs(), byFam: map[string]map[string]*FuncInfo{}, irs: map[*types.Func]*FuncIR{}}
+	g := &genCtx{c: c, co: co, funcs: co.allFuncs(), byFam: map[string]map[string]*FuncInfo{}, irs: map[*types.Func]*FuncIR{}, trivial: map[string]*WPrim{}}
 	for fn, fi := range g.funcs {
 		fam, role := familyRole(fn)
 		if role == "" || isMetaPkg(fi.Pkg.Name) {
@@ -144,6 +146,14 @@ func checkC01(c *Check) {
 				}
 			}
 		}
+		// decoded temporaries that are stored into a collection must be fresh per iteration
+		for _, fam := range g.families() {
+			for _, role := range []string{"ReadTL1", "ReadTL1Boxed"} {
+				if fi := g.byFam[fam][role]; fi != nil {
+					g.freshTemporaries(c, "tl1-reader-fresh-temporaries", g.co.Spec.Name+":"+shortFam(fam)+"."+role, fi)
+				}
+			}
+		}
 		// error discipline: no generated TL1 writer call whose error result is dropped
 		for _, fi := range g.funcs {
 			_, role := familyRole(fi.Obj)
@@ -178,6 +188,7 @@ func checkC01(c *Check) {
 	c.Floor("tl1-dual/result", 20)
 	c.Floor("tl1-write-length-guard", 10)
 	c.Floor("tl1-write-error-propagated", 50)
+	c.Floor("tl1-reader-fresh-temporaries", 10)
 }
 
 func indent(s, ind string) string {
@@ -186,4 +197,70 @@ func indent(s, ind string) string {
 		lines[i] = ind + lines[i]
 	}
 	return strings.Join(lines, "\n") + "\n"
+}
+
+// freshTemporaries: in a reader loop, a local whose content is stored into a map/slice element must be
+// declared inside the loop body, so that each iteration decodes into a fresh value (a hoisted
+// temporary shares slices/maps between the stored copies).
+func (g *genCtx) freshTemporaries(c *Check, rule, construct string, fi *FuncInfo) {
+	ir := g.ir(fi)
+	var visit func(blk Block)
+	visit = func(blk Block) {
+		for _, n := range blk {
+			switch n := n.(type) {
+			case *IfN:
+				visit(n.Then)
+				visit(n.Else)
+			case *SwitchN:
+				for _, cs := range n.Cases {
+					visit(cs.Body)
+				}
+			case *LoopN:
+				declared := map[string]bool{}
+				walkBlock(n.Body, nil, func(m Node, _ []Guard) {
+					switch m := m.(type) {
+					case *DeclN:
+						declared[m.Name] = true
+					case *AssignN:
+						if m.Tok == token.DEFINE {
+							for _, l := range m.LHS {
+								declared[l] = true
+							}
+						}
+					case *CallN:
+						if m.Expr != nil {
+							// `x, err := f()` defines
+							for _, r := range m.Results {
+								_ = r
+							}
+						}
+					}
+				})
+				walkBlock(n.Body, nil, func(m Node, _ []Guard) {
+					a, ok := m.(*AssignN)
+					if !ok || a.Tok != token.ASSIGN || len(a.LHS) != 1 || !strings.Contains(a.LHS[0], "[") || strings.Contains(a.LHS[0], ":") && !strings.Contains(a.LHS[0], "L") {
+						return
+					}
+					if strings.HasSuffix(a.LHS[0], "]") == false {
+						return
+					}
+					for _, loc := range localRx.FindAllString(strings.Join(a.RHS, " "), -1) {
+						t := ""
+						_ = t
+						c.Ob(rule, construct+"/"+stripLocalNo(loc), declared[loc], posStr(g.co.Fset, a.Pos),
+							"value stored into "+a.LHS[0]+" comes from local "+loc+", which must be declared inside the loop")
+					}
+				})
+				visit(n.Body)
+			}
+		}
+	}
+	visit(ir.Body)
+}
+
+func stripLocalNo(l string) string {
+	if i := strings.Index(l, ":"); i >= 0 {
+		return l[i+1:]
+	}
+	return l
 }
